@@ -112,10 +112,18 @@ func c12History(k int, s string) {
 		_ = redact.Sprintf("%v", redact.Unsafe(redact.Safe(s)))
 	case 22:
 		_ = redact.Sprint(redact.Unsafe(redact.Unsafe(redact.Unsafe(s))))
+	// safe values in interface-typed slots: nothing learnt about a slot
+	// type or a dynamic type may carry over to other values
+	case 23:
+		_ = redact.Sprint([]interface{}{redact.SafeString("a"), redact.SafeInt(1)}, map[string]interface{}{"k": redact.SafeString("v")})
+	case 24:
+		_ = redact.Sprintf("%v %v", []error{safeErr{"e"}}, pubStruct{"a", 1})
+	case 25:
+		_ = redact.Sprint(reentSF{s})
 	}
 }
 
-const nC12Histories = 23
+const nC12Histories = 26
 
 // c12Probe runs probe k and returns everything observable about it.
 func c12Probe(k int, s string) (out []byte) {
@@ -157,11 +165,33 @@ func c12Probe(k int, s string) (out []byte) {
 		b.SafeFloat(0.5)
 		b.Print(s, 3)
 		return []byte(b.RedactableString())
+	// probes 10..12 are not run on the fresh process: their expected result
+	// is given by c12Expected, so that whatever the library remembers from
+	// the HISTORY's values (per type, per slot type) is seen by the probe first
+	case 10:
+		return []byte(redact.Sprint([]interface{}{s, 1}))
+	case 11:
+		return []byte(redact.Sprintf("%v", map[string]interface{}{"k": s}))
+	case 12:
+		return []byte(redact.Sprintf("%v %v", []error{valErr{s}}, pubStruct{s, 1}))
 	}
 	panic("c12Probe")
 }
 
-const nC12Probes = 10
+func c12Expected(k int, s string) []byte {
+	es := cat(mS, refEscapeBody([]byte(s), true), mE)
+	switch k {
+	case 10:
+		return cat([]byte("["), es, []byte(" ‹1›]"))
+	case 11:
+		return cat([]byte("map[‹k›:"), es, []byte("]"))
+	case 12:
+		return cat([]byte("["), es, []byte("] {"), es, []byte(" ‹1›}"))
+	}
+	panic("c12Expected")
+}
+
+const nC12Probes = 13
 
 // H_c12: a probe call gives the same result after any history as on a
 // fresh process; sync.Pool is the adversarial model (Get may return any
@@ -173,10 +203,28 @@ func H_c12(p []int) {
 	hs := string(vBytes(n))
 	vSite(fmt.Sprintf("probe=%d history=%v", probe, p[2:]))
 	vPoolAdversarial(false)
-	r0 := c12Probe(probe, s) // first call in the process: fresh printers
+	if probe >= 10 {
+		for k := range bs {
+			vAssume(bs[k] != '\n') // (line feeds split envelopes: C03)
+		}
+		vAssumeValidUTF8(bs) // (truncated tails get a '?': C10)
+	}
+	var r0 []byte
+	if probe < 10 {
+		r0 = c12Probe(probe, s) // first call in the process: fresh printers
+	} else {
+		r0 = c12Expected(probe, s)
+	}
 	for _, h := range p[2:] {
 		c12History(h, hs)
 	}
+	// a result obtained before the probe, re-examined after it
+	var early redact.RedactableString
+	func() {
+		defer func() { recover() }()
+		early = redact.Sprintf("pfx %v sfx", redact.Safe(sfDoublePanic{hs}))
+	}()
+	earlyCopy := append([]byte{}, early...)
 	// the probe may now be served any printer freed so far, or a new one
 	vPoolAdversarial(true)
 	before := vPoolReuses()
@@ -185,6 +233,7 @@ func H_c12(p []int) {
 	vObserve("fresh", r0)
 	vObserve("after", r1)
 	vAssert(bytesEq(r0, r1), "C12/history-independent")
+	vAssert(bytesEq([]byte(early), earlyCopy), "C12/earlier-result-unchanged")
 	vCover(true, "ran")
 }
 
